@@ -4,7 +4,7 @@ import os, subprocess, sys, concurrent.futures as cf, collections
 bin_, n = sys.argv[1], int(sys.argv[2])
 env0 = dict(kv.split("=", 1) for kv in sys.argv[3].split()) if len(sys.argv) > 3 and sys.argv[3] else {}
 strats = sys.argv[4:] or ["random", "pct:2:300", "sticky:6"]
-exe = "/verif/.cache/target/debug/" + bin_  # callers hold flock -s /tmp/repo.lock
+exe = os.environ.get("BINDIR", "/verif/.cache/target/debug") + "/" + bin_  # callers hold flock -s /tmp/repo.lock
 def one(job):
     seed, st = job
     env = dict(os.environ, **env0, MAYV_SEED=str(seed), MAYV_STRATEGY=st)
